@@ -127,6 +127,23 @@ func classifyRejection(cond ssa.Value, neg bool) (field, kind string) {
 		case *ssa.ChangeType:
 			walk(x.X, d+1)
 		case *ssa.Call:
+			// a generated getter GetF() of a module struct is its field F, however the validator spells the read
+			if callee := x.Common().StaticCallee(); callee != nil && callee.Signature.Recv() != nil && strings.HasPrefix(callee.Name(), "Get") && len(x.Common().Args) == 1 {
+				rt := callee.Signature.Recv().Type()
+				if pt, ok := rt.(*types.Pointer); ok {
+					rt = pt.Elem()
+				}
+				if nt, ok := rt.(*types.Named); ok && nt.Obj().Pkg() != nil && strings.HasPrefix(nt.Obj().Pkg().Path(), modPath) {
+					if st, ok := nt.Underlying().(*types.Struct); ok {
+						for i := 0; i < st.NumFields(); i++ {
+							if st.Field(i).Name() == callee.Name()[3:] {
+								fields = append(fields, nt.Obj().Name()+"."+st.Field(i).Name())
+								return
+							}
+						}
+					}
+				}
+			}
 			// a method of a module type is a derived field of that type
 			if callee := x.Common().StaticCallee(); callee != nil && callee.Signature.Recv() != nil && len(fields) == 0 {
 				rt := callee.Signature.Recv().Type()
@@ -292,7 +309,7 @@ var c12VettedRejections = map[string]string{
 	"VestingPool.Withdrawn IsNegative":                                     "Withdrawn starts at zero and only grows by oracle results, which are zero or GetCurrentlyLocked() (C06.table, C05.pair)",
 	"VestingPool.Sent IsNegative":                                          "Sent starts at zero and only grows by amounts validated non-negative (C05.avail)",
 	"VestingPool.GetCurrentlyLocked() IsNegative":                          "Sent grows only where currentlyLocked >= amount and Withdrawn by at most currentlyLocked (C05.avail, C06.table)",
-	"VestingAccountTrace.Id cmp>=":                                         "AppendVestingAccountTrace assigns id = count and then stores count+1 (C17.only: single writer)",
+	"GenesisState.VestingAccountTraceCount+VestingAccountTrace.Id cmp>=":   "AppendVestingAccountTrace assigns id = count and then stores count+1 (C17.only: single writer)",
 	"AccountVestingPools.VestingPools+VestingPool.VestingType not-modcall": "membership of the pool's vesting type among the vesting types, when the search is a helper of its own: a pool is created only with an existing vesting type and types are never removed at run time",
 	// cfevesting: vesting types (written by genesis and the v120 upgrade only; exported through UnitsFromDuration)
 	"GenesisVestingType.Name empty":                                              "vesting types come from a validated genesis or from the upgrade's constants",
